@@ -371,4 +371,268 @@ theorem opSha256_fastpath : OpFastpathIrrelevant opSha256 := by
       · cases hfast
     · rfl
 
+/-! ### `traverse_path_fast` = `traverse_path` -/
+
+/-- the bits of `n` below its most significant one, least significant first -/
+def lsbBits (n : Nat) : List Bool := if n ≤ 1 then [] else (n % 2 == 1) :: lsbBits (n / 2)
+termination_by n
+decreasing_by omega
+
+theorem lsbBits_le1 {n : Nat} (h : n ≤ 1) : lsbBits n = [] := by rw [lsbBits, if_pos h]
+theorem lsbBits_gt1 {n : Nat} (h : 1 < n) : lsbBits n = (n % 2 == 1) :: lsbBits (n / 2) := by
+  rw [lsbBits, if_neg (by omega)]
+
+/-- the cost returned by `walk` is the start cost plus one charge per bit -/
+theorem walk_cost (bits : List Bool) : ∀ (env : Val) (c0 : Nat),
+    walk bits env c0 = match walk bits env 0 with
+      | .error e => .error e
+      | .ok (_, x) => .ok (c0 + bits.length * Gen.TRAVERSE_COST_PER_BIT, x) := by
+  induction bits with
+  | nil => intro env c0; simp [walk]
+  | cons b bits ih =>
+    intro env c0
+    cases env with
+    | atom x i => simp [walk]
+    | pair l r =>
+      simp only [walk]
+      rw [ih _ (c0 + Gen.TRAVERSE_COST_PER_BIT), ih _ (0 + Gen.TRAVERSE_COST_PER_BIT)]
+      cases walk bits (if b = true then r else l) 0 with
+      | error e => rfl
+      | ok p => simp only [List.length_cons, Nat.add_mul]; congr 2; omega
+
+theorem walkFast_eq : ∀ (fuel n : Nat) (env : Val) (nb : Nat), 1 ≤ n → n < 2 ^ fuel →
+    walkFast fuel n env nb = match walk (lsbBits n) env 0 with
+      | .error e => .error e
+      | .ok (_, x) => .ok (nb + (lsbBits n).length, x) := by
+  intro fuel
+  induction fuel with
+  | zero => intro n env nb h1 h2; simp at h2; omega
+  | succ fuel ih =>
+    intro n env nb h1 h2
+    by_cases hn : n = 1
+    · subst hn; simp [walkFast, lsbBits_le1, walk]
+    · have hb : (n == 1) = false := by simpa using hn
+      rw [lsbBits_gt1 (by omega)]
+      simp only [walkFast, hb, Bool.false_eq_true, ↓reduceIte]
+      cases env with
+      | atom x i => simp [walk]
+      | pair l r =>
+        simp only [walk]
+        rw [ih (n / 2) _ (nb + 1) (by omega) (by rw [Nat.pow_succ] at h2; omega),
+          walk_cost _ _ (0 + Gen.TRAVERSE_COST_PER_BIT)]
+        generalize walk (lsbBits (n / 2)) (if (n % 2 == 1) = true then r else l) 0 = w
+        cases w with
+        | error e => rfl
+        | ok p => simp only [List.length_cons]; congr 2; omega
+
+/-- structurally recursive twin of `lsbBits` (so that `decide` can evaluate it) -/
+def lsbBitsF : Nat → Nat → List Bool
+  | 0, _ => []
+  | f + 1, n => if n ≤ 1 then [] else (n % 2 == 1) :: lsbBitsF f (n / 2)
+
+theorem lsbBitsF_eq : ∀ (f n : Nat), n < 2 ^ f → lsbBitsF f n = lsbBits n := by
+  intro f
+  induction f with
+  | zero => intro n h; rw [lsbBits_le1 (by simp at h; omega)]; rfl
+  | succ f ih =>
+    intro n h
+    by_cases h1 : n ≤ 1
+    · rw [lsbBits_le1 h1, lsbBitsF, if_pos h1]
+    · rw [lsbBits_gt1 (by omega), lsbBitsF, if_neg h1, ih _ (by rw [Nat.pow_succ] at h; omega)]
+
+def bits8 (x : Nat) : List Bool := (List.range 8).map (fun i => x &&& 2 ^ i != 0)
+
+theorem byte_bits : ∀ n, n < 256 → 0 < n → bitsBelow n (msbMask n) = lsbBitsF 8 n := by decide +kernel
+
+theorem byte_bits_len : ∀ n, n < 256 → 0 < n →
+    (bitsBelow n (msbMask n)).length ≤ 7 ∧ ((bitsBelow n (msbMask n)).length = 7 ↔ 127 < n) := by
+  decide +kernel
+
+theorem bits8_eq : ∀ x, x < 256 →
+    [x % 2 == 1, x / 2 % 2 == 1, x / 2 / 2 % 2 == 1, x / 2 / 2 / 2 % 2 == 1, x / 2 / 2 / 2 / 2 % 2 == 1,
+     x / 2 / 2 / 2 / 2 / 2 % 2 == 1, x / 2 / 2 / 2 / 2 / 2 / 2 % 2 == 1,
+     x / 2 / 2 / 2 / 2 / 2 / 2 / 2 % 2 == 1] = bits8 x := by decide +kernel
+
+theorem lsb_step (m k x : Nat) (hm : 0 < m) (hk : 0 < k) (_hx : x < 2 * k) :
+    lsbBits (m * (2 * k) + x) = (x % 2 == 1) :: lsbBits (m * k + x / 2) := by
+  have h1 : m * (2 * k) = 2 * (m * k) := by rw [Nat.mul_left_comm]
+  have h2 : 0 < m * k := Nat.mul_pos hm hk
+  rw [lsbBits_gt1 (by omega), h1]
+  congr 2
+  · omega
+  · omega
+
+theorem lsb_snoc (m x : Nat) (hm : 0 < m) (hx : x < 256) : lsbBits (m * 256 + x) = bits8 x ++ lsbBits m := by
+  rw [← bits8_eq x hx]
+  rw [lsb_step m 128 x hm (by omega) (by omega), lsb_step m 64 _ hm (by omega) (by omega),
+    lsb_step m 32 _ hm (by omega) (by omega), lsb_step m 16 _ hm (by omega) (by omega),
+    lsb_step m 8 _ hm (by omega) (by omega), lsb_step m 4 _ hm (by omega) (by omega),
+    lsb_step m 2 _ hm (by omega) (by omega), lsb_step m 1 _ hm (by omega) (by omega)]
+  have : x / 2 / 2 / 2 / 2 / 2 / 2 / 2 / 2 = 0 := by omega
+  rw [this]; simp
+
+/-- `pathBits` after the leading zero bytes have been dropped -/
+def pathBitsNZ : Bytes → List Bool
+  | [] => []
+  | b0 :: rest => (rest.reverse.flatMap (fun b => bits8 b.toNat)) ++ bitsBelow b0.toNat (msbMask b0.toNat)
+
+theorem pathBits_eq (b : Bytes) : pathBits b = pathBitsNZ (b.drop (firstNonZero b)) := by
+  unfold pathBits
+  simp only
+  cases List.drop (firstNonZero b) b <;> rfl
+
+theorem pathBitsNZ_snoc (L : Bytes) (x : UInt8) (hL : L ≠ []) :
+    pathBitsNZ (L ++ [x]) = bits8 x.toNat ++ pathBitsNZ L := by
+  cases L with
+  | nil => exact absurd rfl hL
+  | cons b0 rest => simp [pathBitsNZ]
+
+theorem pathBitsNZ_length (x : UInt8) (t : Bytes) :
+    (pathBitsNZ (x :: t)).length = 8 * t.length + (bitsBelow x.toNat (msbMask x.toNat)).length := by
+  have h8 : ∀ l : Bytes, (l.flatMap (fun b => bits8 b.toNat)).length = 8 * l.length := by
+    intro l
+    induction l with
+    | nil => rfl
+    | cons a l ih => rw [List.flatMap_cons, List.length_append, ih]; simp [bits8]; omega
+  simp only [pathBitsNZ, List.length_append, h8, List.length_reverse]
+
+theorem pathBitsNZ_natBE (n : Nat) : 0 < n → pathBitsNZ (natBE n) = lsbBits n := by
+  fun_induction natBE n with
+  | case1 => intro h; omega
+  | case2 n hn ih =>
+    intro _
+    have hx : n % 256 < 256 := Nat.mod_lt _ (by omega)
+    by_cases h0 : n / 256 = 0
+    · have hn' : n % 256 = n := by omega
+      rw [h0, natBE, if_pos rfl, hn']
+      have hlt : n < 256 := by omega
+      simp only [List.nil_append, pathBitsNZ, List.reverse_nil, List.flatMap_nil, toNat_ofNat_lt n hlt]
+      rw [byte_bits n hlt (by omega), lsbBitsF_eq 8 n (by omega)]
+    · obtain ⟨y, t, e, _⟩ := natBE_head (n / 256) (by omega)
+      rw [pathBitsNZ_snoc _ _ (by rw [e]; simp), ih (by omega), toNat_ofNat_lt _ hx,
+        ← lsb_snoc _ _ (by omega) hx]
+      congr 1; omega
+
+/-- the canonical encoding of a positive number: its magnitude, with a zero byte in front when
+the top bit is set -/
+theorem encodeInt_natBE (v : Nat) (x : UInt8) (t : Bytes) (hn : natBE v = x :: t) :
+    encodeInt (v : Int) = if 127 < x.toNat then (0 : UInt8) :: x :: t else x :: t := by
+  have hb : beNat (x :: t) = v := by rw [← hn, beNat_natBE]
+  have hv : 0 < v := by
+    rcases Nat.eq_zero_or_pos v with h | h
+    · subst h; rw [natBE] at hn; simp at hn
+    · exact h
+  obtain ⟨x', t', hn', hx⟩ := natBE_head v hv
+  rw [hn] at hn'
+  injection hn' with e1 e2
+  subst e1 e2
+  have hxl := u8_lt x
+  by_cases h127 : 127 < x.toNat
+  · rw [if_pos h127]
+    have hcan : canonical ((0 : UInt8) :: x :: t) = true := by
+      simp [canonical]; omega
+    have hd : decodeInt ((0 : UInt8) :: x :: t) = (v : Int) := by
+      have : beNat ((0 : UInt8) :: x :: t) = beNat (x :: t) := by
+        rw [beNat_cons]; simp
+      simp only [decodeInt, this, hb]
+      simp
+    rw [← hd, encodeInt_decodeInt _ hcan]
+  · rw [if_neg h127]
+    have hcan : canonical (x :: t) = true := by
+      cases t with
+      | nil => simp [canonical]; exact hx
+      | cons y u => simp [canonical]; omega
+    have hd : decodeInt (x :: t) = (v : Int) := by
+      have : ¬ 128 ≤ x.toNat := by omega
+      simp only [decodeInt, this, if_false, hb]
+    rw [← hd, encodeInt_decodeInt _ hcan]
+
+/-- **C05**: `traverse_path_fast(v)` = `traverse_path(canonical bytes of v)` for every `u32` -/
+theorem traverse_fast_eq (v : Nat) (hv : v < 2 ^ 32) (env : Val) :
+    traversePathFast v env = traversePath (encodeInt (v : Int)) env := by
+  by_cases h0 : v = 0
+  · subst h0; rfl
+  obtain ⟨x, t, hn, hx⟩ := natBE_head v (by omega)
+  have hxl := u8_lt x
+  have hb : beNat (x :: t) = v := by rw [← hn, beNat_natBE]
+  have hbits : pathBitsNZ (x :: t) = lsbBits v := by rw [← hn]; exact pathBitsNZ_natBE v (by omega)
+  have hlen := pathBitsNZ_length x t
+  rw [hbits] at hlen
+  have hbl := byte_bits_len x.toNat hxl (by omega)
+  have htl : t.length < 4 := by
+    rw [beNat_cons] at hb
+    have h1 : 256 ^ t.length ≤ x.toNat * 256 ^ t.length := Nat.le_mul_of_pos_left _ (by omega)
+    have h2 : 256 ^ t.length < 256 ^ 4 := by omega
+    exact (Nat.pow_lt_pow_iff_right (by omega)).1 h2
+  have hfz : (x.toNat == 0) = false := by simpa using hx
+  have hne : (v == 0) = false := by simpa using h0
+  -- the fast side
+  simp only [traversePathFast, hne, Bool.false_eq_true, ↓reduceIte]
+  rw [walkFast_eq 33 v env 0 (by omega) (by omega)]
+  -- the byte side
+  rw [encodeInt_natBE v x t hn]
+  by_cases h127 : 127 < x.toNat
+  · rw [if_pos h127]
+    have hk : firstNonZero ((0 : UInt8) :: x :: t) = 1 := by simp [firstNonZero, hfz]
+    simp only [traversePath, hk, pathBits_eq, List.drop_succ_cons, List.drop_zero, hbits, List.length_cons]
+    rw [if_neg (by omega)]
+    conv => rhs; rw [walk_cost]
+    generalize walk (lsbBits v) env 0 = w
+    cases w with
+    | error e => rfl
+    | ok p =>
+      have : (lsbBits v).length = 7 ∨ (lsbBits v).length = 15 ∨ (lsbBits v).length = 23 ∨
+          (lsbBits v).length = 31 := by omega
+      simp only [Nat.zero_add]
+      rcases this with h | h | h | h <;> rw [h] <;> rfl
+  · rw [if_neg h127]
+    have hk : firstNonZero (x :: t) = 0 := by simp [firstNonZero, hfz]
+    simp only [traversePath, hk, pathBits_eq, List.drop_zero, hbits, List.length_cons]
+    rw [if_neg (by omega)]
+    conv => rhs; rw [walk_cost]
+    generalize walk (lsbBits v) env 0 = w
+    cases w with
+    | error e => rfl
+    | ok p =>
+      have h7 : ((lsbBits v).length == 7) = false := by simp; omega
+      have h15 : ((lsbBits v).length == 15) = false := by simp; omega
+      have h23 : ((lsbBits v).length == 23) = false := by simp; omega
+      have h31 : ((lsbBits v).length == 31) = false := by simp; omega
+      simp only [Nat.zero_add, h7, h15, h23, h31, Bool.or_self, Bool.false_eq_true, ↓reduceIte,
+        Nat.zero_mul, Nat.add_zero]
+
+theorem traverse_fast_wf (b : Bytes) (h : (Val.atom b true).wf = true) (env : Val) :
+    traversePathFast (beNat b) env = traversePath b env := by
+  have := traverse_fast_eq (beNat b) (by have := wfInl_lt h; omega) env
+  rw [← wfInl_enc h] at this
+  exact this
+
+/-- `eval_pair` does not depend on the build configuration on well-formed programs -/
+theorem evalPair_fastpath (d : Dialect) (s : MState) (program env : Val) (hw : program.wf = true) :
+    evalPair { fastpath := true } d s program env = evalPair { fastpath := false } d s program env := by
+  cases program with
+  | pair a b => rfl
+  | atom b inl =>
+    cases inl
+    · rfl
+    · simp only [evalPair, node, ↓reduceIte, Bool.false_eq_true, traverse_fast_wf b hw env]
+
+/-! ### aggregate -/
+
+/-- **C05**: every core operator of the default build equals the one of the `no-fastpath` build
+on well-formed arguments -/
+theorem coreOps_fastpath {name : String} {f g : OpFn}
+    (hf : coreOpByName { fastpath := true } name = some f)
+    (hg : coreOpByName { fastpath := false } name = some g) :
+    ∀ (flags m : Nat) (args : Val) (c : Ctr), args.wf = true → f flags m args c = g flags m args c := by
+  intro flags m args c hw
+  unfold coreOpByName at hf hg
+  split at hf <;> cases hf <;> simp only [Option.some.injEq] at hg <;> subst hg <;> first
+    | rfl
+    | exact opSha256_fastpath flags m args c hw
+    | exact opAdd_fastpath flags m args c hw
+    | exact opSubtract_fastpath flags m args c hw
+    | exact opMultiply_fastpath flags m args c hw
+    | exact opGr_fastpath flags m args c hw
+
 end Clvm.Interp
